@@ -10,7 +10,20 @@ package fallback
 
 //@ type fallback
 //@   immutable logger, primary, secondary, fastFallbackDuration, alwaysStandby
-//@   invariant self.logger != nil && self.primary != nil && self.secondary != nil
+//@   invariant self.logger != nil && self.primary != nil && self.secondary != nil && self.fastFallbackDuration > 0
+
+// newFallbackPlugin (C20): the threshold after which the secondary may take over is always
+// POSITIVE: the configured number of milliseconds, or 500 ms when none (or a non-positive one) is
+// configured — never a zero or negative duration (which would let the secondary answer at once).
+//@ func newFallbackPlugin [C20]
+//@   wraparound
+//@   requires bp != nil && args != nil
+//@   modifies *
+//@   ensures (result_0 != nil) != (result_1 != nil)
+//@   ensures result_1 == nil ==> fresh(result_0) && result_0.fastFallbackDuration > 0 && result_0.alwaysStandby == old(args.AlwaysStandby)
+//@   ensures result_1 == nil && 0 < old(args.Threshold) && old(args.Threshold) <= 9223372036854 ==> result_0.fastFallbackDuration == old(args.Threshold) * 1000000
+//@   ensures result_1 == nil && 0 - 9223372036854 <= old(args.Threshold) && old(args.Threshold) <= 0 ==> result_0.fastFallbackDuration == 500000000
+//@   ensures result_1 == nil ==> calls(GetPlugin) == 2 && arg(GetPlugin, 0, 1) == old(args.Primary) && arg(GetPlugin, 1, 1) == old(args.Secondary)
 
 //@ func makeDdlCtx [C20]
 //@   requires ctx != nil
